@@ -19,6 +19,7 @@ import (
 	"github.com/bio-routing/bio-rd/routingtable"
 	"github.com/bio-routing/bio-rd/routingtable/adjRIBOut"
 	"github.com/bio-routing/bio-rd/routingtable/filter"
+	"github.com/bio-routing/bio-rd/routingtable/filter/actions"
 	"github.com/bio-routing/bio-rd/zzverif/vh"
 	"github.com/bio-routing/bio-rd/zzverif/vsched"
 )
@@ -42,7 +43,12 @@ type zvC10Case struct {
 	Schedule []int     `json:"schedule"`
 	Bound    int       `json:"preemption_bound"`
 	V6       bool      `json:"ipv6_multiprotocol,omitempty"` // IPv6 unicast: MP_REACH_NLRI / MP_UNREACH_NLRI encoding
+	SetMED   bool      `json:"export_policy_sets_med,omitempty"`
 }
+
+// zvC10ExportSetMED: the session's export policy rewrites an attribute (MED) instead of accepting unchanged - what the
+// Adj-RIB-Out stores and hands to the sender is then not what the Loc-RIB handed in.
+var zvC10ExportSetMED bool
 
 var zvC10Pfx = []*bnet.Prefix{zvPfx4(192, 0, 2, 0, 24), zvPfx4(198, 51, 100, 0, 24)}
 var zvC10Pfx6 = []*bnet.Prefix{
@@ -90,7 +96,11 @@ func zvC10BuildFam(addPath, v6 bool) *zvC10World {
 	if addPath {
 		f.addPathTX = routingtable.ClientOptions{MaxPaths: 4}
 	}
-	aro := adjRIBOut.New(f.rib, f.getSessionAttrs(), filter.NewAcceptAllFilterChain())
+	chain := filter.NewAcceptAllFilterChain()
+	if zvC10ExportSetMED {
+		chain = filter.Chain{filter.NewFilter("set-med", []*filter.Term{filter.NewTerm("t", nil, []actions.Action{actions.NewSetMEDAction(77), actions.NewAcceptAction()})})}
+	}
+	aro := adjRIBOut.New(f.rib, f.getSessionAttrs(), chain)
 	f.adjRIBOut = aro
 	f.updateSender = newUpdateSender(f)
 	f.updateSender.Start(5 * time.Millisecond)
@@ -206,7 +216,7 @@ func zvC10ExploreFam(r *vh.Run, addPath, v6 bool, hist []zvC10Op, bound int, onl
 	}
 	check := func(x *vsched.Execution) {
 		r.Eval(1)
-		c := zvC10Case{addPath, hist, x.Choices, bound, v6}
+		c := zvC10Case{addPath, hist, x.Choices, bound, v6, zvC10ExportSetMED}
 		hs := fmt.Sprint(hist)
 		if x.Status != vsched.Completed {
 			r.Violation(vh.Sig("clause", "run-"+x.Status.String(), "addpath", fmt.Sprint(addPath)), c, "history %s: execution %s %s %.300s", hs, x.Status, x.Blocked, x.Crash)
@@ -288,23 +298,25 @@ func TestVerifC10(t *testing.T) {
 	if r.Thorough() {
 		bound = 3
 	}
-	r.Rule(fmt.Sprintf("every history of 2-3 (thorough: 4) Adj-RIB-Out operations over {add/remove p1,p2 @P, add p1 @Q, End-of-RIB flush} x add-path TX {off,on} x {IPv4, IPv6 multiprotocol (quick: without add-path)}; for each, every interleaving with at most %d preemptions of the history thread with the real "+
+	r.Rule(fmt.Sprintf("every history of 2-3 (thorough: 4) Adj-RIB-Out operations over {add/remove p1,p2 @P, add p1 @Q, End-of-RIB flush} x add-path TX {off,on} x {IPv4, IPv6 multiprotocol (quick: without add-path)} x export policy {accept unchanged, set MED (IPv4)}; for each, every interleaving with at most %d preemptions of the history thread with the real "+
 		"UpdateSender goroutine and its 5 ms ticker (fired by the environment at any point, 2 ticks horizon); final-state oracle: replayed UPDATEs == Adj-RIB-Out; states = executions", bound))
 	r.Require("executions")
 	r.Extra("preemption_bound", bound)
 	if r.IsReplay() {
 		var c zvC10Case
 		r.ReplayCase(&c)
+		zvC10ExportSetMED = c.SetMED
 		zvC10ExploreFam(r, c.AddPath, c.V6, c.Hist, c.Bound, append([]int{}, c.Schedule...))
 		r.Count("executions", 1)
 		return
 	}
 	idx := 0
-	for _, fam := range [][2]bool{{false, false}, {true, false}, {false, true}, {true, true}} {
-		ap, v6 := fam[0], fam[1]
+	for _, fam := range [][3]bool{{false, false, false}, {true, false, false}, {false, true, false}, {true, true, false}, {false, false, true}, {true, false, true}} {
+		ap, v6, setMED := fam[0], fam[1], fam[2]
 		if v6 && ap && !r.Thorough() {
 			continue
 		}
+		zvC10ExportSetMED = setMED
 		for _, h := range zvC10Histories(r.Thorough(), ap) {
 			idx++
 			if !r.Mine(idx) {
